@@ -91,6 +91,7 @@ class HDict:
     def copy(self):
         h = HDict(self.d, self.default)
         h.sym = list(self.sym)
+        h.is_counter = getattr(self, 'is_counter', False)
         return h
 
 
@@ -257,6 +258,15 @@ class Engine:
             return z3.BoolVal(len(self.st.heap[v.t].d) > 0)
         if k == 'enumv':
             return v.t[1] != 0
+        if k == 'obj':
+            # python truth protocol: __bool__, else __len__ != 0, else True
+            cls = self.st.heap[v.t].cls
+            for nm in ('__bool__', '__len__'):
+                fn, owner, ent = self.src.find_method(cls, nm)
+                if fn is not None:
+                    r = self.call_method(v, nm, [], {}, None)
+                    return r.t if r.k == 'bool' else self.as_int(r) != 0
+            return z3.BoolVal(True)
         if k in ('obj', 'cls', 'func', 'enum'):
             if k == 'enum':
                 return z3.BoolVal(self.enum_value(v) != 0) if isinstance(self.enum_value(v), int) else z3.BoolVal(True)
